@@ -41,10 +41,12 @@ def corpus_files():
 
 def statements_of(path, maxlen=3000):
     try:
-        with open(path, encoding="utf-8") as f:
-            src = f.read()
+        with open(path, "rb") as f:
+            raw = f.read()
         with warnings.catch_warnings():
             warnings.simplefilter("ignore")
+            ast.parse(raw)  # CPython must accept the file as it is on disk (coding cookie included)
+            src = raw.decode("utf-8")
             tree = ast.parse(src)
     except Exception:
         return None, []
@@ -105,6 +107,10 @@ class Judge:
             self.p = self.Parser()
             return "CRASH", f"{type(x).__name__}: {str(x)[:100]}"
         if t is None:
+            if isinstance(ctree, ast.Module) and not ctree.body:
+                # a program without statements (blank lines / comments only): xonsh's parser hands back None, which
+                # Execer treats as the empty program - the same meaning as CPython's Module(body=[])
+                return "OK", None
             return "DIFF", ("", "xonsh returned None")
         d = firstdiff(e, norm(t))
         if d is not None:
@@ -256,8 +262,26 @@ def named_mechanism(cls, key, small, mode, detail=None):
         return "REJECT/Set/starred-element"
     if cls == "DIFF" and k1 == "Set.elts" and isinstance(root, ast.Set) and isinstance(root.elts[0], (ast.Set, ast.Dict, ast.SetComp, ast.DictComp)):
         return "DIFF/Set.elts/first-element-is-brace-display"
-    if cls == "DIFF" and k1 == "MatchSequence.patterns" and k2 == "len" and isinstance(root, ast.Match):
-        return "DIFF/MatchSequence.patterns/nested-sequence-pattern"
+    if cls == "DIFF" and k1 == "MatchSequence.patterns" and isinstance(root, ast.Match) and (k2 == "len" or k2.startswith("node MatchSequence/")):
+        if any(isinstance(n, ast.MatchSequence) and any(isinstance(c, ast.MatchSequence) for c in n.patterns) for n in nodes):
+            return "DIFF/MatchSequence.patterns/nested-sequence-pattern"
+    if surface and re.search(r"\b(and|or)[^\s\w]", text) and any(isinstance(n, ast.BoolOp) for n in nodes):
+        # `x or[]`, `x and(y)`, `x or-1`, `x or'a'`: the keyword is glued to the token that follows it
+        if cls == "REJECT" and kinds <= {"Module", "Expr", "BoolOp", "And", "Or", "UnaryOp", "USub", "UAdd", "Invert", "Not", "Name", "Constant", "List", "Tuple", "Dict", "Set", "Load", "Assign", "Store", "JoinedStr"}:
+            return "REJECT/surface/and-or-keyword-glued-to-the-next-token"
+        if cls == "DIFF" and k1 == "Module.body" and isinstance(root, ast.TypeAlias):
+            return "DIFF/surface/and-or-keyword-glued-to-the-next-token/type-statement-split-in-two"
+    if cls == "REJECT" and surface and str(detail).startswith("code: :=") and kinds <= {"Module", "Expr", "Subscript", "NamedExpr", "Tuple", "Name", "Constant", "Load", "Store"} and any(isinstance(n, ast.Subscript) and (isinstance(n.slice, ast.NamedExpr) or (isinstance(n.slice, ast.Tuple) and any(isinstance(e, ast.NamedExpr) for e in n.slice.elts))) for n in nodes):
+        return "REJECT/NamedExpr/unparenthesised-walrus-in-subscript"
+    if cls == "REJECT" and surface and str(detail).startswith("code: :=") and isinstance(root, ast.Match) and any(isinstance(x, ast.NamedExpr) for x in ast.walk(root.subject)) and re.match(r"match\s+[^(\n]*:=", text):
+        return "REJECT/NamedExpr/unparenthesised-walrus-in-match-subject"
+    if cls == "REJECT" and surface and isinstance(root, ast.JoinedStr) and re.search(r"(?i)\b(rf|fr)('|\")", text) and re.search(r"\\['\"]", text):
+        return "REJECT/JoinedStr/raw-f-string-containing-a-backslash-quote"
+    if cls == "REJECT" and any(ord(c) > 127 for c in text) and kinds <= {"Module", "Expr", "Name", "Load", "Store", "Assign", "Constant", "Attribute"}:
+        names = [n.id for n in nodes if isinstance(n, ast.Name)] + [n.attr for n in nodes if isinstance(n, ast.Attribute)]
+        if any(not re.fullmatch(r"\w+", nm) for nm in names):
+            # legal by CPython's XID_Start/XID_Continue rule, outside the tokenizer's \w+ name pattern (combining marks, Other_ID_Start)
+            return "REJECT/Name/identifier-character-outside-the-tokenizer-name-pattern"
     if cls == "DIFF" and k1 == "Name.id" and surface and any(ord(c) > 127 for c in small):
         import unicodedata
 
@@ -387,6 +411,9 @@ def directed_cases():
         "for i, in xs:\n    pass\n", "for i, j in xs: pass\n", "for (i,) in xs: pass\n", "for [i] in xs: pass\n",
         "1>=1\n", "a>=1\n", "a>b\n", "2>1\n", "a<b\n", "a>>b\n", "a>>=b\n", "e>o\n", "x = a>b\n", "f(a>=b)\n", "o>e\n", "a<=b\n", "err>out\n", "1>2>3\n",
         "{a, *b}\n", "{*a}\n", "{*a, *b}\n", "[a, *b]\n", "(a, *b)\n", "{**a, 'k': 1}\n",
+        # witnesses of findings first seen by the thorough tier
+        "(x or[])\n", "x and(y)\n", "x or-1\n", "type x=x and-x\n", "(x[x:=0])\n", "x[(y:=0)]\n", "match x := x,:\n    case y as v,:\n        pass\n",
+        "(rf'a\\'b')\n", "\u05e2\u05b4\u05d1 = 1\n", "match x:\n    case x([[{}]]):\n        0\n",
         "def f(a, *args: T, **kw: T): pass\n", "def f(*args: T): pass\n", "def f(**kw: T): pass\n", "def f(*, a: T = 1): pass\n",
         "def f(a, /, b, *, c): pass\n", "def f(a=1, /, b=2, *c, d, e=3, **f) -> int: pass\n", "lambda a, /, b=1, *c, d, **e: 0\n",
         "with (a as b, c as d): pass\n", "with (a as b): pass\n", "with (a, b): pass\n", "with (a, b) as c: pass\n", "with a as b, c as d: pass\n",
